@@ -31,8 +31,8 @@ def run(b, ps, tier, seed):
                     model_disagree.append((i, m, sd))
         for cfg, r in d.impl[i].items():
             m = cfg[0]
-            if r["panic"]:
-                continue
+            if r["panic"] and d.model[i][m]["0"]["tag"] != "RAN":
+                continue                # the model's run dies too: C01's business
             if m == "np":
                 if contraction:
                     continue
